@@ -281,7 +281,18 @@ func c14Main(r *engine.Run) {
 	plainAt := func(x, w int) geom.Polygon {
 		return id.Polygon([]universe.LPt{{x, 0}, {x + w, 0}, {x + w, 2}, {x, 2}, {x, 0}})
 	}
+	// a member whose hole is wound like its shell (neither CW nor CCW as a whole): its weight is
+	// still its area, shell minus hole
+	sameWound := func(x int, rev bool) geom.Polygon {
+		sh := []universe.LPt{{x, 0}, {x + 4, 0}, {x + 4, 4}, {x, 4}, {x, 0}}
+		ho := []universe.LPt{{x + 1, 1}, {x + 3, 1}, {x + 3, 3}, {x + 1, 3}, {x + 1, 1}}
+		if rev {
+			return id.Polygon(rotateRing(sh, 0, true), rotateRing(ho, 1, true))
+		}
+		return id.Polygon(sh, ho)
+	}
 	for _, ms := range [][]geom.Polygon{
+		{sameWound(0, false), plainAt(6, 2)}, {plainAt(6, 3), sameWound(0, true)}, {sameWound(0, false), sameWound(10, true), plainAt(5, 1)}, {donutAt(0, false), sameWound(10, false)},
 		{donutAt(0, false), plainAt(6, 2)}, {plainAt(6, 2), donutAt(0, true)}, {donutAt(0, false), donutAt(10, true), plainAt(6, 1)},
 		{donutAt(0, true), {}, plainAt(5, 4)}, {plainAt(-4, 3), donutAt(0, false), plainAt(6, 2)},
 	} {
